@@ -37,3 +37,25 @@ Definition oconcat (xs : list oval) : res oval :=
   | [v] => Ok (OVal v)
   | vs => res_map OVal (vconcat vs)
   end.
+
+(* ---------------------------------------------------------------- finding F-C04f (fixed by d2e8680) *)
+(* A nil stored under an input key.  The invoke form of the input-key wrapper hands the value under
+   the key to the node as it is; a node whose input type is an interface takes the nil, a node
+   with a concrete input type fails its input assertion.  The stream form (defaultStreamMapFilter)
+   asserted `v.(T)` — never true for nil — and then dereferenced the nil type of the value for its
+   error message: a (recovered) panic for every T.  [iface]: the node's input type is an interface. *)
+Definition inkey_value (iface : bool) (v : oval) : res oval :=
+  match v with
+  | ONil => if iface then Ok ONil else Err e_type
+  | OVal x => Ok (OVal x)
+  end.
+
+(* one chunk {k: v} through the stream filter: the chunk the node receives / an error item *)
+Definition inkey_chunk_v0 (iface : bool) (v : oval) : item oval :=
+  match v with ONil => Bad e_node | OVal x => Val (OVal x) end.
+
+Definition inkey_chunk (iface : bool) (v : oval) : item oval :=
+  match v with
+  | ONil => if iface then Val ONil else Bad e_type
+  | OVal x => Val (OVal x)
+  end.
